@@ -1022,6 +1022,35 @@ def gen_mix(rng):
     return sc
 
 
+def gen_mix2(rng):
+    """the feature mixture crossed with the remaining dimensions: stop rule, deadlock detector bookkeeping while the
+    run is stopped by time, process-based / flexible routing, several simulate calls, progress bar"""
+    sc = gen_mix(rng)
+    N, K = sc["N"], sc["K"]
+    if rng.random() < 0.25:
+        sc["stop"] = rng.choice(["Finish", "Arrive", "Accept", "Complete"])
+        sc["maxc"] = rng.randint(2, 12)
+    elif rng.random() < 0.2:
+        T = sc["T"]
+        sc["splits"] = sorted(set(rng.randint(1, T - 1) for _ in range(rng.randint(1, 3))))
+    if rng.random() < 0.25:
+        sc["detector"] = "digraph"
+    if rng.random() < 0.25:
+        kind = rng.choice(["pb", "fpb"])
+        routes = []
+        for _ in range(rng.randint(1, 3)):
+            L = rng.randint(0, 3)
+            if kind == "pb":
+                routes.append([[rng.randint(1, N)] for _ in range(L)])
+            else:
+                routes.append([sorted(rng.sample(range(1, N + 1), rng.randint(1, N))) for _ in range(L)])
+        r = {"kind": kind, "routes": routes, "rule": rng.choice(["any", "all"]), "choice": rng.choice(["random", "jsq", "lb"])}
+        sc["route"] = [copy.deepcopy(r) for _ in range(K)]
+    if rng.random() < 0.1 and not sc.get("splits"):
+        sc["pbar"] = 1
+    return sc
+
+
 def gen_pause(rng):
     """a run made of several simulate_until_max_time calls (stops logged as `pause` pseudo-events)"""
     base = rng.choice([gen_core1, gen_tandem, gen_tandem, gen_prio, gen_sched, gen_renege, gen_cls,
@@ -1136,6 +1165,7 @@ def gen_stopcount(rng):
 
 
 FAMILIES = {
+    "mix2": gen_mix2,
     "exmix": gen_exmix,
     "exdead": gen_exdead,
     "pbar": gen_pbar,
